@@ -24,7 +24,7 @@ func init() {
 		Rule: "case = (matcher+configuration, stream, prefix length k): streams are well-formed first messages with 0..64 bytes of trailing data and boundary-aware mutations of them; " +
 			"for every k (all k<=700, sampled above) a fresh layer4.Connection preloaded with the k-byte prefix over a counting conn is evaluated through MatcherSet.Match. " +
 			"oracle: P1 no network read during Match; P2 MatchingBytes and a full read afterwards equal the prefix; P3 two evaluations on one connection and one on a fresh connection agree; " +
-			"P4 (stream matchers) NO/ERR at k stays NO/ERR for all longer prefixes; P5 (stream matchers) YES at k implies MORE or YES at every shorter prefix; P6 a stream evaluated again later (fresh connection, after other streams of the target) gets the same verdict. " +
+			"P4 (stream matchers) NO/ERR at k stays NO/ERR for all longer prefixes; P5 (stream matchers) YES at k implies MORE or YES at every shorter prefix; P6 a stream evaluated again later (fresh connection, after other streams of the target) gets the same verdict; P7 the same holds for a second instance provisioned beside the first and for the first instance after its configuration was unloaded. " +
 			"non-trivial = the stream's verdict sequence contains at least one MORE or YES; distinct = hash(target, stream). " +
 			"route level: a route list of a proxy_protocol route (non-terminal) followed by 3-8 shipped stream matchers in a shuffled order, each ending in a recording sink; a stream (optional PROXY v1/v2 header + well-formed " +
 			"message + trailing bytes) is delivered whole and in 2-4 fragments (separate prefetch rounds): the same route must consume it and its handler must read the same bytes. route level also: HTTP requests of 6.2-8.1 KiB (long header) whole and in equal segments of 536..4000 bytes.",
@@ -129,7 +129,53 @@ func run(c *fw.Ctx) {
 				c.Obs("history_reevaluations", 1)
 			}
 		}
+		// P7: the verdict on a stream does not depend on the life cycle of the configuration either. A second instance is
+		// provisioned from the same configuration while this one exists (a reload), then this one is unloaded: streams
+		// evaluated before get the same verdict from the new instance - and from the unloaded one, which goes on matching
+		// the connections it accepted before the reload (their bytes may still be arriving).
+		o7 := mt.Opts{UDP: t.UDP, WrapTime: time.Date(2024, 5, 5, 12, 0, 0, 0, time.UTC)}
+		for k := range hist {
+			// (the reference verdicts are taken right now: some verdicts depend on the time of day within seconds)
+			if k < 24 {
+				func() {
+					defer func() { _ = recover() }()
+					hist[k].verdict, _ = m.Eval(hist[k].stream, o7)
+				}()
+			}
+		}
+		m2, err2 := mt.Load(t.Matcher, t.Config)
 		m.Close()
+		if err2 == nil {
+			o := o7
+			for k, h := range hist {
+				if k >= 24 || !c.Mine(idx+k) {
+					continue
+				}
+				for which, inst := range []*mt.Matcher{m2, m} {
+					var v mt.Verdict
+					func() {
+						defer func() {
+							if r := recover(); r != nil {
+								v = "panic"
+							}
+						}()
+						v, _ = inst.Eval(h.stream, o)
+					}()
+					c.Obs("life_cycle_reevaluations", 1)
+					if v != h.verdict {
+						who := "a second instance provisioned from the same configuration while the first existed (first one unloaded since)"
+						if which == 1 {
+							who = "the same instance after its configuration was unloaded (it still serves the connections it accepted before)"
+						}
+						c.Violation(fmt.Sprintf("C06 %s P7 verdict-depends-on-configuration-life-cycle", t.Matcher),
+							fmt.Sprintf("a stream that was answered %s is answered %s by %s", h.verdict, v, who),
+							Witness{Target: t.Name(), Matcher: t.Matcher, Config: t.Config, UDP: t.UDP, StreamHex: hex.EncodeToString(h.stream), K: len(h.stream), Detail: "P7: " + who})
+						break
+					}
+				}
+			}
+			m2.Close()
+		}
 	}
 }
 
